@@ -279,10 +279,37 @@ class FakeOS:
     def listdir(self, p):
         return self.fs.listdir(p)
 
+    def scandir(self, p):
+        return _ScanDir([_DirEntry(self.fs, p, n) for n in self.fs.listdir(p)])
+
     pid = 4242
 
     def getpid(self):
         return self.pid
+
+
+class _DirEntry:
+    def __init__(self, fs, d, name):
+        self.name = name
+        self.path = d.rstrip("/") + "/" + name
+        self._fs = fs
+
+    def is_file(self, follow_symlinks=True):
+        return self._fs.isfile(self.path)
+
+    def is_dir(self, follow_symlinks=True):
+        return self._fs.isdir(self.path)
+
+
+class _ScanDir(list):
+    def __enter__(self):
+        return self
+
+    def __exit__(self, *a):
+        return False
+
+    def close(self):
+        pass
 
 
 class FakeGlob:
